@@ -47,15 +47,16 @@ Proof. vm_compute. reflexivity. Qed.
 Definition f_example : file_src :=
   mkFile [[]; [32]]
     [mkCue [32;55;55] (mkClock 100 true 59 59 999) [9] [32;32] (mkClock 999 true 99 99 0) [32;88;49]
-       [NTag KB AngleShort [NChar 97; NTag KI AngleLong [NChar 98; NBreak; NChar 99]; NTag KU AngleUpper [NChar 100]]; NFont (CHex6 255 0 128 true) QBare [NChar 101; NFont (CNamed 15 false) QDouble [NChar 102]]; NChar 92; NChar 62] [[]; [9]; []];
+       [NTag KB AngleShort [NChar 97; NTag KI AngleLong [NChar 98; NBreak; NChar 99]; NTag KU AngleUpper [NChar 100]]; NFont (CHex6 255 0 128 true) QBare [NChar 101; NFont (CNamed 15 false) QDouble [NChar 102]]; NTag KI BraceLong [NRef RAmp; NRef (RDec 8364)]; NChar 92; NChar 62] [[]; [9]; []];
      mkCue [35;50] k1 [32] [32] k2 [] [NChar 8364; NBreak; NChar 120] []]
     true true.
-Lemma example_ok : wf_file f_example = true /\ angle_file f_example = true /\ trigger_backslash f_example = false /\
-  f_final_eol f_example = true /\
+Lemma example_ok : wf_file f_example = true /\ trigger_brace_short f_example = false /\ trigger_stray_end f_example = false /\
+  trigger_backslash f_example = false /\
   read_cues_file (print_file f_example) = Ok (cues f_example) /\
   cues f_example = [(Qmake 363599999 1000, Qmake 3602439 1,
                      [Ch 97 (mkSt true false false None); Ch 98 (mkSt true true false None); Brk; Ch 99 (mkSt true true false None);
                       Ch 100 (mkSt true false true None); Ch 101 (mkSt false false false (Some (255, 0, 128, 255)));
-                      Ch 102 (mkSt false false false (Some (0, 0, 255, 255))); Ch 92 st0; Ch 62 st0]);
+                      Ch 102 (mkSt false false false (Some (0, 0, 255, 255))); Ch 38 (mkSt false true false None); Ch 8364 (mkSt false true false None);
+                      Ch 92 st0; Ch 62 st0]);
                     (Qmake 1 1, Qmake 5 2, [Ch 8364 st0; Brk; Ch 120 st0])].
 Proof. vm_compute. repeat split. Qed.
